@@ -32,6 +32,8 @@ QUICK = [
                 "MaxN": "1", "MaxStk": "1", "MaxStmts": "2"}, None),      # let name :: constraint = value
     ("funcbody", {"Fam": "<- FamFuncBody", "LitPool": "<- Lits2", "Names": "<- Names2", "SigPool": "<- Sigs2",
                   "BinOps": "<- OpsFew", "MaxN": "4", "MaxStk": "2", "MaxCtx": "2", "MaxStmts": "2"}, None),   # define, then call
+    ("fopbad", {"Fam": "<- FamFopPre", "LitPool": "<- Lits1", "Names": "<- Names1", "Prelude": "<- PreFopBad",
+                "MaxN": "5", "MaxStk": "3", "MaxStmts": "1"}, None),    # callbacks whose answers map / filter cannot use
     ("moduse", {"Fam": "<- FamModUse", "LitPool": "<- Lits2", "Names": "<- Names1", "BinOps": "<- Ops1",
                 "FldNames": "<- FldsP", "CastTys": "<- CastsIS", "Prelude": "<- PreMod", "MaxN": "4", "MaxStk": "2",
                 "MaxStmts": "1"}, None),         # the instance of a module as an operand
